@@ -189,7 +189,7 @@ def opIssue (req : J) : J :=
     | some j => some j
     | none => none
   outcomeJ (fun (p, srcs) => mkObj [("payload", p),
-      ("srcs", .arr (srcs.map fun (k, v) => .arr [match k with | some k => S k | none => .null, v]))])
+      ("srcs", .arr (srcs.map fun d => .arr [match d.key with | some k => S k | none => .null, d.value, S d.digest]))])
     (Impl.encode claims paths mk decoys cnf)
 
 /-! ## validation policy, header, yaml -/
